@@ -634,7 +634,7 @@ def fam_C10(rng, tier):
         n = min(n, ln2)
         lines += ['clone 0 2', 'pop 0 %d' % n, 'dump 2 0', 'len 0']
         meta['pop'] = n
-        out.append(Case(lines, 'path-copying', ('clone_free', 'flush_bound', 'size_bound', 'pop_reuse'), meta))
+        out.append(Case(lines, 'path-copying', ('clone_free', 'flush_bound', 'size_bound', 'pop_reuse', 'root_memoises'), meta))
     return out
 
 
